@@ -506,6 +506,85 @@ impl World {
         Ok(out)
     }
 
+    /// C20: what the Rust core SDK computes for the same swap on the same state
+    /// (amount A, amount B, total fee) — `compute_swap` of rust-sdk/core/src/quote/swap.rs
+    pub fn sdk_swap(&self, amount: u64, limit: u128, ein: bool, dir: bool, starts: &[i32]) -> Result<(u64, u64, u64), String> {
+        use orca_whirlpools_core as sdk;
+        let wp = self.wp();
+        let ts = wp.tick_spacing;
+        let mut seed = ts.to_le_bytes();
+        if self.af.is_some() {
+            seed = (ts.wrapping_add(1024)).to_le_bytes(); // adaptive-fee pools have fee_tier_index != tick_spacing
+        }
+        let wf = sdk::WhirlpoolFacade {
+            fee_tier_index_seed: seed,
+            tick_spacing: ts,
+            fee_rate: wp.fee_rate,
+            protocol_fee_rate: wp.protocol_fee_rate,
+            liquidity: wp.liquidity,
+            sqrt_price: wp.sqrt_price,
+            tick_current_index: wp.tick_current_index,
+            fee_growth_global_a: wp.fee_growth_global_a,
+            fee_growth_global_b: wp.fee_growth_global_b,
+            reward_last_updated_timestamp: wp.reward_last_updated_timestamp,
+            reward_infos: [sdk::WhirlpoolRewardInfoFacade::default(); 3],
+        };
+        let mut arrs: [Option<sdk::TickArrayFacade>; 6] = [None; 6];
+        let mut uniq: Vec<i32> = vec![];
+        for s in starts {
+            if !uniq.contains(s) {
+                uniq.push(*s);
+            }
+        }
+        for (k, st) in uniq.iter().take(6).enumerate() {
+            let mut ticks = [sdk::TickFacade::default(); 88];
+            if let Some(acc) = self.arrays.get(st) {
+                let v = World::anchor_view(acc);
+                for i in 0..88 {
+                    if let Ok(t) = v.get_tick(st + i as i32 * ts as i32, ts) {
+                        ticks[i] = sdk::TickFacade {
+                            initialized: t.initialized,
+                            liquidity_net: t.liquidity_net,
+                            liquidity_gross: t.liquidity_gross,
+                            fee_growth_outside_a: t.fee_growth_outside_a,
+                            fee_growth_outside_b: t.fee_growth_outside_b,
+                            reward_growths_outside: t.reward_growths_outside,
+                        };
+                    }
+                }
+            }
+            arrs[k] = Some(sdk::TickArrayFacade { start_tick_index: *st, ticks });
+        }
+        let af = self.af.as_ref().map(|i| sdk::AdaptiveFeeInfo {
+            constants: sdk::AdaptiveFeeConstantsFacade {
+                filter_period: i.constants.filter_period,
+                decay_period: i.constants.decay_period,
+                reduction_factor: i.constants.reduction_factor,
+                adaptive_fee_control_factor: i.constants.adaptive_fee_control_factor,
+                max_volatility_accumulator: i.constants.max_volatility_accumulator,
+                tick_group_size: i.constants.tick_group_size,
+                major_swap_threshold_ticks: i.constants.major_swap_threshold_ticks,
+            },
+            variables: sdk::AdaptiveFeeVariablesFacade {
+                last_reference_update_timestamp: i.variables.last_reference_update_timestamp,
+                last_major_swap_timestamp: i.variables.last_major_swap_timestamp,
+                volatility_reference: i.variables.volatility_reference,
+                tick_group_index_reference: i.variables.tick_group_index_reference,
+                volatility_accumulator: i.variables.volatility_accumulator,
+            },
+        });
+        let now = self.now;
+        let r = std::panic::catch_unwind(std::panic::AssertUnwindSafe(|| {
+            let seq = sdk::TickArraySequence::<6>::new(arrs, ts).map_err(|e| e.to_string())?;
+            sdk::compute_swap(amount, limit, wf, seq, dir, ein, now, af).map_err(|e| e.to_string())
+        }));
+        match r {
+            Ok(Ok(x)) => Ok((x.token_a, x.token_b, x.trade_fee)),
+            Ok(Err(e)) => Err(e),
+            Err(_) => Err("Panic".to_string()),
+        }
+    }
+
     /// token movement and pool update as in swap_utils::update_and_swap_whirlpool
     fn commit_swap(&mut self, mut w: Whirlpool, update: &::whirlpool::manager::swap_manager::PostSwapUpdate, dir: bool) -> Result<(String, SwapOutcome), String> {
         let (va, vb) = if dir {
@@ -1094,6 +1173,15 @@ impl Family for Hist {
         } else {
             None
         };
+        // C20: the SDK's computation for the same swap on the same (pre-swap) state
+        let sdk_quote: Option<Result<(u64, u64, u64), String>> = match t[1] {
+            "swap" => {
+                let n: usize = t[6].parse().unwrap();
+                let starts: Vec<i32> = (0..n).map(|k| t[7 + k].parse().unwrap()).collect();
+                Some(w.sdk_swap(p64(t[2]), p128(t[3]), pb(t[4]), pb(t[5]), &starts))
+            }
+            _ => None,
+        };
         // C14: a pool whose control factor is zero charges exactly like a static-fee pool
         let static_twin: Option<(World, Result<String, String>)> = match (&w.af, t[1]) {
             (Some(i), "swap") | (Some(i), "pswap") if i.constants.adaptive_fee_control_factor == 0 => {
@@ -1217,6 +1305,28 @@ impl Family for Hist {
                 ));
             }
             ctx.tag("c10_packaging_compared");
+        }
+        if let Some(q) = sdk_quote {
+            match (&res, &q) {
+                (Ok(_), Ok((a, bb, fee))) => {
+                    let (pa, pb_, lp, pf) = w.last_swap_report;
+                    if (*a, *bb) != (pa, pb_) || *fee as u128 != lp as u128 + pf as u128 {
+                        ctx.viol(format!("C20 swap: the program executes (A {}, B {}, total fee {}) but the SDK computes (A {}, B {}, fee {}) on the same state", pa, pb_, lp as u128 + pf as u128, a, bb, fee));
+                    }
+                    ctx.tag("c20_swap_compared");
+                }
+                (Ok(_), Err(e)) => ctx.viol(format!("C20 swap: the program succeeds but the SDK fails ({})", e)),
+                (Err(pe), Ok(_)) => {
+                    // allowed only for a partial exact-out fill or running off the supplied arrays
+                    // (InsufficientFunds / NoArrays are the harness's own vault bookkeeping)
+                    let allowed = ["PartialFillError", "TickArraySequenceInvalidIndex", "InvalidTickArraySequence", "TickArrayIndexOutofBounds", "InsufficientFunds", "NoArrays"];
+                    if !allowed.contains(&pe.as_str()) {
+                        ctx.viol(format!("C20 swap: the program refuses the swap ({}) but the SDK produces {:?}", pe, q));
+                    }
+                    ctx.tag("c20_swap_program_err_sdk_ok");
+                }
+                (Err(_), Err(_)) => ctx.tag("c20_swap_both_err"),
+            }
         }
         if let Some((c, r)) = static_twin {
             let strip = |d: String| d.rsplit_once(" | A").map(|x| x.0.to_string()).unwrap_or(d);
